@@ -76,6 +76,15 @@ def run : List V → Option String
     let f := fun (xs : List V) => xs.mapM (fun (k : V) => match k with | V.w n => some n | V.i n => some (toString n) | _ => none)
     let a ← f idx; let b ← f all; let c ← f req
     pure (V.l ((project a b c).map V.w)).show
+  | [.w "prune", .l [.i a, .i b, .i c, .i d], .l rows] => do
+    let rs ← rows.mapM (fun (r : V) => match r with
+      | V.l [V.i x0, V.i y0, V.i x1, V.i y1] => some (some (x0, y0, x1, y1))
+      | V.l [V.nan, V.nan, V.nan, V.nan] => some none
+      | _ => none)
+    -- "Make sure x0 < x1", "Make sure y0 < y1"
+    let box := (min a c, min b d, max a c, max b d)
+    let kept := ((List.range rs.length).zip rs).filterMap (fun (i, pb) => if keepPartition box pb then some i else none)
+    pure (ofNats kept).show
   | _ => none
 
 end SpVerif.Parquet
